@@ -21,7 +21,16 @@ import numpy as np
 import collections, copy, itertools, warnings, yaml
 from onsager import crystal, supercell
 import tarfile, time, io, json
-import pkg_resources
+try:
+    import pkg_resources
+
+    def _resource_text(name):
+        return str(pkg_resources.resource_string(__name__, name), 'ascii')
+except ImportError:  # setuptools without pkg_resources (or no setuptools): use the standard library
+    import importlib.resources
+
+    def _resource_text(name):
+        return importlib.resources.files(__package__).joinpath(name).read_text(encoding='ascii')
 
 
 def map2string(tag, groupop, mapping):
@@ -224,9 +233,9 @@ def supercelltar(tar, superdict, filemode=0o664, directmode=0o775, timestamp=Non
     for filename, strdata in (('INCAR.relax', INCARrelax), ('INCAR.NEB', INCARNEB)) + \
             ((('KPOINTS', KPOINTS),) if kpoints else tuple()):
         addfile(filename, strdata)
-    addfile('trans.pl', str(pkg_resources.resource_string(__name__, 'trans.pl'), 'ascii'), executable=True)
-    addfile('nebmake.pl', str(pkg_resources.resource_string(__name__, 'nebmake.pl'), 'ascii'), executable=True)
-    addfile('Vasp.pm', str(pkg_resources.resource_string(__name__, 'Vasp.pm'), 'ascii'))
+    addfile('trans.pl', _resource_text('trans.pl'), executable=True)
+    addfile('nebmake.pl', _resource_text('nebmake.pl'), executable=True)
+    addfile('Vasp.pm', _resource_text('Vasp.pm'))
     # now, go through the states:
     if 'reference' in superdict:
         addfile('POSCAR', superdict['reference'].POSCAR('Defect-free reference'))
